@@ -21,10 +21,10 @@
    before fix 59bbd7c, now sorted: C19_sorted_str_perm), is NOT order free: C19_list_of_str_set_refuted (known finding,
    reproduced on the real code under two hash seeds by every run of the check). *)
 From Coq Require Import ZArith List String Bool Permutation.
-From Model Require Import PyBase Graph Determinism.
+From Model Require Import PyBase Graph Determinism DeterminismKeep.
 From Model Require Morgan Fingerprint Rings Iso.
-From Gen Require Import SetAudit.
-From Proofs Require Import DeterminismProofs DeterminismExt DeterminismRings.
+From Gen Require Import SetAudit CacheKeys.
+From Proofs Require Import DeterminismProofs DeterminismExt DeterminismRings DeterminismKeepProofs.
 From Proofs Require MorganProofs FingerprintProofs RingsProofs IsoLazyProofs.
 Import ListNotations.
 Open Scope list_scope.
@@ -361,6 +361,79 @@ Theorem C19_cached_equals_copy : forall (S K V : Type) (keqb : K -> K -> bool), 
   forall (derive : K -> S -> V) ops s c, cache_ok keqb derive s c -> run keqb derive s c ops = run keqb derive s [] ops.
 Proof. exact @cached_equals_copy. Qed.
 Print Assumptions C19_cached_equals_copy.
+
+(* ---- (c') the memoisation layer with PARTIAL flushes: flush_cache(keep_sssr=..., keep_components=...) ---- *)
+
+(* a partial flush after an edit keeps the cache invariant exactly when the kept attributes did not change *)
+Theorem C19_restrict_ok : forall (S K V : Type) (keqb : K -> K -> bool), (forall a b, keqb a b = true <-> a = b) ->
+  forall (derive : K -> S -> V) (f : S -> S) keep s c, cache_ok keqb derive s c ->
+  (forall k, In k keep -> derive k (f s) = derive k s) -> cache_ok keqb derive (f s) (restrict keqb keep c).
+Proof. exact @restrict_ok. Qed.
+Print Assumptions C19_restrict_ok.
+
+(* every history of reads, cross-storing reads, edits followed by a partial flush and partial flushes alone returns what an
+   uncached evaluation returns, provided every partial flush keeps only attributes its edit left unchanged (the comment
+   in the source: "good to keep if no new bonds or bonds deletions ...") *)
+Theorem C19_cache_transparent_keep : forall (S K V : Type) (keqb : K -> K -> bool), (forall a b, keqb a b = true <-> a = b) ->
+  forall (derive : K -> S -> V) ops s c, cache_ok keqb derive s c -> keeps_sound derive s ops ->
+  run_keep keqb derive s c ops = run_uncached_keep derive s ops.
+Proof. exact @cache_transparent_keep. Qed.
+Print Assumptions C19_cache_transparent_keep.
+
+(* a copy made with keep flags (copy(keep_sssr=.., keep_components=..), the backup of a transaction) observes what the
+   original observes *)
+Theorem C19_copy_keep_transparent : forall (S K V : Type) (keqb : K -> K -> bool), (forall a b, keqb a b = true <-> a = b) ->
+  forall (derive : K -> S -> V) ops s c keep, cache_ok keqb derive s c -> keeps_sound derive s ops ->
+  run_keep keqb derive s (restrict keqb keep c) ops = run_keep keqb derive s c ops.
+Proof. exact @copy_keep_transparent. Qed.
+Print Assumptions C19_copy_keep_transparent.
+
+(* the side condition is necessary: keeping an attribute that the edit changes returns the stale value (the shape of the
+   delete_bond / rolled back transaction / explicify_hydrogens defects this property found in /repo) *)
+Theorem C19_partial_flush_without_side_condition_refuted :
+  let ops := [KRead true; KRead false; KMutateKeep (cons 9) [true; false]; KRead false; KRead true] in
+  run_keep Bool.eqb kex_derive [1; 2] [] ops = [2; 7; 7; 2] /\
+  run_uncached_keep kex_derive [1; 2] ops = [2; 7; 7; 3] /\
+  ~ keeps_sound kex_derive [1; 2] ops.
+Proof. exact partial_flush_needs_side_condition. Qed.
+Print Assumptions C19_partial_flush_without_side_condition_refuted.
+
+Theorem C19_partial_flush_example :
+  let ops := [KReadStoring true [false]; KRead false; KMutateKeep (cons 9) [false]; KRead false; KRead true;
+              KFlushKeep [true]; KRead true; KMutateKeep (cons 4) []; KRead true] in
+  keeps_sound kex_derive [1; 2] ops /\
+  run_keep Bool.eqb kex_derive [1; 2] [] ops = [2; 7; 7; 3; 3; 4] /\
+  run_uncached_keep kex_derive [1; 2] ops = [2; 7; 7; 3; 3; 4].
+Proof. exact partial_flush_example. Qed.
+Print Assumptions C19_partial_flush_example.
+
+(* ---- ties of hand-written constants to the CURRENT source (Gen.CacheKeys, regenerated every run) ---- *)
+
+(* flush_cache and copy keep the same keys, and they are the ones the model and the check assume *)
+Theorem C19_kept_keys_agree :
+  flush_keep_sssr = sssr_family /\ copy_keep_sssr = sssr_family /\
+  flush_keep_components = components_family /\ copy_keep_components = components_family.
+Proof. exact kept_keys_agree. Qed.
+Print Assumptions C19_kept_keys_agree.
+
+(* the self.__dict__ entries a Smiles read stores besides its own memo entry (the ReadStoring operations of the histories) *)
+Theorem C19_cross_stores_agree : smiles_cross_stores = cross_stored.
+Proof. exact cross_stores_agree. Qed.
+Print Assumptions C19_cross_stores_agree.
+
+(* the ring-size mask loop of both isomorphism encoders uses the constants of Model.Determinism.ring_mask_step / ring_mask *)
+Theorem C19_ring_mask_consts_agree :
+  ring_mask_structure = (ring_size_limit, ring_size_limit, ring_free_mask) /\ ring_mask_query = ring_mask_structure /\
+  (forall v r, ring_mask_step v r = ring_mask_step_gen (fst (fst ring_mask_structure)) (snd (fst ring_mask_structure)) v r) /\
+  (forall e, ring_mask e = let v4 := loop ring_mask_step e 0 in if v4 =? 0 then snd ring_mask_structure else v4).
+Proof. exact ring_mask_consts_agree. Qed.
+Print Assumptions C19_ring_mask_consts_agree.
+
+(* every flush_cache(keep...) call of the audited files passes only the documented flags *)
+Theorem C19_partial_flush_keywords_known :
+  forallb (fun c => existsb (String.eqb (snd c)) known_flush_keywords) partial_flush_calls = true.
+Proof. exact partial_flush_keywords_known. Qed.
+Print Assumptions C19_partial_flush_keywords_known.
 
 (* the invariant is not for free: a mutation without flush breaks it *)
 Theorem C19_stale_without_flush :
